@@ -13,6 +13,7 @@ CHECKS = {
  "C08": ("proof", "contracts on Registers.get/set (+by-name, flag API) for every register name, arbitrary prior file and arbitrary 64-bit written value, the algebraic law as a lemma over the contract, snapshot round trip and register blob layout; Python half only", "Rust LlamaState/snapshot.rs not decided (constants compared under C17); " + TB, "5 C08"),
  "C10": ("exploration", "bounded contract check of Assembler.assemble on generated programs against an independent layout calculator (bytes at addresses, symbol table, determinism, statelessness); the two lemmas O-size (pass-one size == pass-two bytes for every symbol value) and O-near (page rule) are proved by SYMX and reported under proved_lemmas", "strings and the lark parser cannot be carried symbolically: the contract on assemble() is bounded (generated programs, seeded); " + TB, "5 C10"),
  "C11": ("proof", "memory laws (read-back, read-only windows, frame/no-alias, alias agreement, little-endian composition) on the real PCE500Memory/MemoryBus for symbolic 32-bit addresses under 12 configurations incl. overlays at symbolic addresses; Python half only", "Rust MemoryImage/RuntimeBus not decided; device windows excluded; " + TB, "5 C11"),
+ "C12": ("proof", "only the contract-sized clauses: delivery gate (both directions), 5-byte frame, master enable cleared, nothing else written, masked request kept, HALT wake-up on one real PCE500Emulator.step over symbolic IMR/ISR/pending/F/S; IR/RETI inverse as a lemma over the instruction contracts", "the schedule/liveness clauses (prompt delivery over several steps, HALT/OFF timing, all interleavings) and the Rust runtime are NOT decided; " + TB, "5 C12"),
  "C13": ("proof", "contract of TimerScheduler.advance discharged with the loop rule over unbounded integers, cadence lemma over the contract, reset/setters, ISR mapping of _tick_timers; WAIT loop bounded; Python half only", "Rust TimerContext not decided; _simulate_wait bounded (n <= 4/6 cycles); snapshot restore of timers not under contract; " + TB, "5 C13"),
  "C14": ("proof", "per-key debounce/repeat automaton contract for all states/thresholds, key operations establish the invariant, FIFO against its sequence view for all head/tail pairs, scan_tick, KEYI gating; row computation bounded in the number of non-idle keys; Python half only", "Rust keyboard.rs not decided; " + TB, "5 C14"),
  "C15": ("proof", "HD61202 protocol contracts per operation on symbolic chip state/VRAM, chip-select routing for all 16 decodings, and the pixel map (7680 cells each proved to be one inverted VRAM bit, pairwise distinct); Python half only", "Rust lcd.rs not decided; " + TB, "5 C15"),
@@ -26,7 +27,7 @@ NA = {
 PENDING = {
  "C09": "text->bytes goes through a lark parser and string-valued operands; check not built yet",
 
- "C12": "check not built yet",
+
 }
 built = [p for p in CHECKS if os.path.exists(os.path.join(HERE, "props", {"C03": "cpu_props", "C04": "cpu_props", "C07": "cpu_props"}.get(p, p.lower()) + ".py"))]
 m = {
